@@ -278,6 +278,26 @@ func init() {
 							c.Nontrivial(fmt.Sprint(n, k))
 						}
 						c.Outcome(fmt.Sprint(len(got)))
+						// nested use: another enumeration is started from inside the callback (sequential, legitimate);
+						// neither enumeration may disturb the other
+						if n <= 6 && k >= 1 {
+							var outer [][]int64
+							innerOK := true
+							common.Combinations(n, k, func(p []int64) {
+								outer = append(outer, append([]int64(nil), p...))
+								var inner [][]int64
+								common.Combinations(4, 2, func(q []int64) { inner = append(inner, append([]int64(nil), q...)) })
+								if fmt.Sprint(inner) != "[[0 1] [0 2] [0 3] [1 2] [1 3] [2 3]]" {
+									innerOK = false
+								}
+								if len(outer) > 100 {
+									panic("enumeration does not terminate")
+								}
+							})
+							if fmt.Sprint(outer) != fmt.Sprint(want) || !innerOK {
+								c.Violation("C20:Combinations:nested-enumeration-disturbs-the-outer-one", map[string]any{"n": n, "k": k, "outer_head": fmt.Sprint(head2(outer, 4)), "want_head": fmt.Sprint(head2(want, 4)), "inner_ok": innerOK})
+							}
+						}
 						if fmt.Sprint(got) != fmt.Sprint(want) {
 							c.Violation("C20:Combinations:not-the-lexicographic-enumeration", map[string]any{"n": n, "k": k, "got_n": len(got), "want_n": len(want), "got_head": fmt.Sprint(head2(got, 4)), "want_head": fmt.Sprint(head2(want, 4))})
 						}
